@@ -378,6 +378,15 @@ impl crate::validate::Validate for SimpleGlyph {
         if matches!(self.contours.first(), Some(contour) if contour.is_empty()) {
             ctx.report("first contour must contain at least one point");
         }
+        // coordinates are stored as 16-bit deltas from the previous point
+        let (mut last_x, mut last_y) = (0i16, 0i16);
+        for point in self.contours.iter().flat_map(|c| c.iter()) {
+            if point.x.checked_sub(last_x).is_none() || point.y.checked_sub(last_y).is_none() {
+                ctx.report("distance between consecutive points overflows i16");
+                break;
+            }
+            (last_x, last_y) = (point.x, point.y);
+        }
     }
 }
 
